@@ -1746,12 +1746,12 @@ M("g5-eval-bulk-copies-inputs", "C16", "fire G5", "src/register_circuit.rs",
         let input_bits = inputs.concat();
         regs[..input_bits.len()].copy_from_slice(&input_bits);
 """, "seed C16-d: registers pre-filled with all input bits (slice bound from the inputs)")
-M("m5-pattern-fields-unsorted", "C08", "fire M5", "src/parse.rs",
+M("m5-pattern-fields-unsorted", "C08", "quiet", "src/parse.rs",
   """                        self.expect(&TokenEnum::RightBrace)?;
                         fields.sort_by(|(f1, _), (f2, _)| f1.cmp(f2));
                         if ignore_remaining_fields {""",
   """                        self.expect(&TokenEnum::RightBrace)?;
-                        if ignore_remaining_fields {""", "seed C08-d: struct pattern fields keep their source order")
+                        if ignore_remaining_fields {""", "seed C08-d on the current tree: behaviour-preserving since pattern fields are matched by name everywhere (ccbd2fe)")
 M("k6-table-value-from-bits", "C12", "fire K6", "src/compile.rs",
   """                Type::Signed(_) => {
                     let n = resolve_const_expr_signed(&const_def.value, &consts_signed);
@@ -2567,3 +2567,9 @@ M("o9-distribution-helper-wrong-operand", "C04", "fire O9", "src/circuit.rs",
                         self.get_cached(&BuilderGate::And(y, y2)),
                     ) {""", "seed C04-g (inlined): the y-side distribution pairs the XOR inputs with y itself")
 
+
+M("m5-definition-fields-unsorted", "C08", "fire M5", "src/parse.rs",
+  """        let meta = join_meta(start, end);
+        fields.sort_by(|(f1, _), (f2, _)| f1.cmp(f2));
+        Ok((identifier, StructDef { fields, meta }))""", """        let meta = join_meta(start, end);
+        Ok((identifier, StructDef { fields, meta }))""", "struct definitions keep their fields in source order: the layout of struct values is no longer the documented one")
